@@ -36,7 +36,7 @@ LEVEL = ('proof',
  'default_keeps_value, default_accepts — full strength after FIX.patch (i128 limit, isize check, {uint} widening '
  'threshold); the tables are regenerated from the Rust source each run so the theorems are re-checked against the '
  'current code. Tied to the code by in-process lowering / type checking of every boundary spelling at every type in '
- '15+5 contexts, every escape, and end-to-end printed values; float literals (not modelled in Lean) only by run-time '
+ '17 annotated contexts (incl. global / local comptime blocks) and 14 unannotated ones (incl. nine value-preserving wrappers: parentheses, comptime block, block, if, switch arm, array element, labelled break, parenthesised operand / assignment; fixes 11785ef, d3d0ed9), every escape, and end-to-end printed values; float literals (not modelled in Lean) only by run-time '
  "bit pattern vs Rust's str::parse. Known findings: f32 literals are rounded twice (via f64); `0e20` is rejected.",
  '§4 C09',
  'Lean 4 proof (induction over the digit list / component list, case analysis over the type table) + translator '
